@@ -189,6 +189,20 @@ def family_noclobber(rnd, tier):
         fs = src + tree("d", {"s": coll, "keep": "F7"}) + [E("by", "file", "F6")]
         out.append(SC("nc-" + name, fs, ["s"], "d", n=True, cls="noclobber"))
         out.append(SC("ncT-" + name, src + tree("d", dict(coll, keep="F7")) + [E("by", "file", "F6")], ["s"], "d", n=True, T=True, cls="noclobber"))
+    # option combinations: a backup mode must not turn a refused overwrite into a rename of the existing entry
+    for mode in ("numbered", "auto"):
+        pre = {"s": {"f00": "G1", "f00.~1~": "G2", "zz": "G3", "sub": {"c": "G4", "c.~7~": "G5"}}, "keep": "F7"}
+        out.append(SC("nc-backup-%s" % mode, src + tree("d", pre) + [E("by", "file", "F6")], ["s"], "d", n=True, extra=["--backup", mode], cls="noclobber"))
+        out.append(SC("nc-backup-single-%s" % mode, [E("f", "file", "F1"), E("d", "file", "G1"), E("d.~1~", "file", "G2")], ["f"], "d", r=False, n=True,
+                      extra=["--backup", mode], cls="noclobber"))
+    # walker probe racing a queued link: two sources whose mapped destinations coincide, one of them a link into populated content
+    race = [E("a", "dir"), E("a/x", "link", "/d/pre"), E("b", "dir"), E("b/x", "dir"), E("b/x/f", "file", "F1"), E("b/x/g", "file", "F2"),
+            E("d", "dir"), E("d/pre", "dir"), E("d/pre/f", "file", "G1"), E("by", "file", "F6")]
+    sc = SC("nc-race-linkdir", race, ["a/x", "b/x"], "d", n=True, cls="noclobber"); sc["repeat"] = 12
+    out.append(sc)
+    sc = SC("nc-race-linkdir-rel", [dict(e) for e in race], ["a/x", "b/x"], "d", n=True, cls="noclobber"); sc["repeat"] = 6
+    sc["fs0"][1] = E("a/x", "link", "pre")
+    out.append(sc)
     out.append(SC("nc-single-file", [E("f", "file", "F1"), E("d", "file", "G1")], ["f"], "d", r=False, n=True, cls="noclobber"))
     out.append(SC("nc-single-dangling", [E("f", "file", "F1"), E("d", "link", "outside"), E("by", "file", "F6")], ["f"], "d", r=False, n=True, cls="noclobber"))
     out.append(SC("nc-single-into-dir", [E("f", "file", "F1"), E("d", "dir"), E("d/f", "file", "G1")], ["f"], "d", r=False, n=True, cls="noclobber"))
